@@ -116,6 +116,9 @@ def concretize_value(model, v, ctx=None):
         pre = [concretize_value(model, v.elem.from_prefix(None, v.rid, v.taken + n - i), ctx) for i in range(n)]
         items = pre + [concretize_value(model, x, ctx) for x in v.tail]
         return v.cls(items) if v.cls is not list else items
+    if isinstance(v, api.SUnion):
+        i = ev(v.tag).as_long()
+        return concretize_value(model, v.alts[i if 0 <= i < len(v.alts) else 0], ctx)
     if isinstance(v, Rec):
         return RecValue(v.cls, {k: concretize_value(model, x, ctx) for k, x in v.attrs.items()})
     if isinstance(v, list):
@@ -511,8 +514,11 @@ def verify_contract(c, reg, timeout_ms=QUICK_TIMEOUT_MS, max_paths=4000, want_sm
             note = 'bounded: ' + (outcome.detail or '')
             if note not in out['notes']:
                 out['notes'].append(note)
+        ordinal = {}
         for ob in ctx.obligations:
-            dk = (ob.name, repr(ob.decisions), len(ob.pc))
+            base = (ob.name, repr(ob.decisions), len(ob.pc))
+            ordinal[base] = ordinal.get(base, 0) + 1
+            dk = base + (ordinal[base],)          # two obligations of the same name at the same point of a path (result_is and ensures) are distinct
             if dk in seen:
                 continue
             seen.add(dk)
